@@ -372,8 +372,24 @@ def value_expr(path: Path, index: int, expr, depth: int = 6, keep_clock: bool = 
     event = path.events[index] if index < len(path.events) else None
     bind = event.data.get('bind') if event is not None else None
     fn = event.fn if event is not None else None
+    tree = copy.deepcopy(expr)
+    original = {id(c): o for o, c in zip(ast.walk(expr), ast.walk(tree))}
+    fid = event.data.get('fid') if event is not None else (
+        path.events[-1].data.get('fid') if path.events else None)
 
     class Sub(ast.NodeTransformer):
+        def visit_IfExp(self, node):
+            # the branch taken on this path, when the test was observed
+            source = original.get(id(node))
+            if source is not None:
+                for pos in range(min(index, len(path.events)) - 1, -1, -1):
+                    seen = path.events[pos]
+                    if seen.kind == 'test' and seen.node is source.test and \
+                            seen.data.get('fid') == fid:
+                        chosen = node.body if seen.data.get('value') else node.orelse
+                        return self.visit(chosen)
+            return self.generic_visit(node)
+
         def visit_Name(self, node):
             if not isinstance(node.ctx, ast.Load) or depth <= 0 or node.id in keep:
                 return node
@@ -395,8 +411,31 @@ def value_expr(path: Path, index: int, expr, depth: int = 6, keep_clock: bool = 
                 return node
             return value_expr(path, pos, value, depth - 1, keep_clock, keep)
 
-    tree = Sub().visit(copy.deepcopy(expr))
-    return tree
+    return Sub().visit(tree)
+
+
+def path_atoms(path: Path, start: int = 0, stop: int = None, keep=()) -> dict:
+    """
+    what the tests on ``path`` (between two positions, top frame) established, with the
+    tested operands expanded to the values that reach them:
+    ``{('isnone', 'self._value[1]'): False, ('truth', 'self.defused'): False}``
+    """
+    result = {}
+    stop = len(path.events) if stop is None else stop
+    for pos in range(start, stop):
+        event = path.events[pos]
+        if event.kind not in ('test', 'assert') or event.depth != 0:
+            continue
+        key = event.data.get('key')
+        if not key or len(key) != 2 or not isinstance(key[1], str):
+            continue
+        try:
+            operand = ast.parse(key[1], mode='eval').body
+        except SyntaxError:
+            continue
+        text = value_text(path, pos, operand, keep=tuple(keep))
+        result[(key[0], text)] = event.data.get('value') == event.data.get('positive', True)
+    return result
 
 
 _VALUE_TEXT = {}
